@@ -7,6 +7,7 @@ import (
 	"go/token"
 	"go/types"
 	"os"
+	"runtime"
 	"path/filepath"
 	"sort"
 	"strings"
@@ -26,6 +27,7 @@ type World struct {
 	Prog   *ssa.Program
 	SSA    *ssa.Package
 	Sizes  types.Sizes
+	Arch   string // GOARCH the program was loaded for ("" = host default)
 	Funcs  []*ssa.Function // every source function of the package incl. methods, closures, generic instantiations
 	byObj  map[*types.Func]*ssa.Function
 	inPkg  map[*ssa.Function]bool
@@ -77,7 +79,7 @@ func loadWorld(dir string, goarch string) (*World, error) {
 	prog, ssapkgs := ssautil.AllPackages(pkgs, ssa.InstantiateGenerics)
 	prog.Build()
 	w := &World{
-		Dir: dir, Fset: root.Fset, Pkg: root, Types: root.Types, Info: root.TypesInfo,
+		Dir: dir, Arch: goarch, Fset: root.Fset, Pkg: root, Types: root.Types, Info: root.TypesInfo,
 		Prog: prog, SSA: ssapkgs[0], Sizes: root.TypesSizes, NPkgs: n,
 		byObj: map[*types.Func]*ssa.Function{}, inPkg: map[*ssa.Function]bool{},
 	}
@@ -86,6 +88,14 @@ func loadWorld(dir string, goarch string) (*World, error) {
 	}
 	w.collectFuncs()
 	return w, nil
+}
+
+// ArchName is the GOARCH the program was loaded for.
+func (w *World) ArchName() string {
+	if w.Arch == "" {
+		return runtime.GOARCH
+	}
+	return w.Arch
 }
 
 func (w *World) collectFuncs() {
